@@ -518,7 +518,17 @@ func main() {
 	emptyKeyCrash := probeEmptyKeyFlush(res)
 
 	f5Family, f5Left := 0, 0
+	gaveUp := false
 	runOne := func(ops []Op, label string) {
+		if hangs.Load() > 40 {
+			// (the re-entrant Get on db/memory accounts for a handful) calls keep hanging: the violations
+			// found so far are reported, the rest of the run would only wait for deadlines
+			if !gaveUp {
+				gaveUp = true
+				res.Fatalf("%d calls did not return within their deadline: remaining sequences not run (from family %s on)", hangs.Load(), label)
+			}
+			return
+		}
 		if emptyKeyCrash && usesEmptyKey(ops) {
 			var kept []Op
 			for _, o := range ops {
@@ -557,6 +567,12 @@ func main() {
 			}
 		}
 		rn.account(res, ops, sr)
+		if sr.Hang {
+			// the call is still running in its goroutine (it may loop forever and eat memory): report what
+			// was found and stop here
+			res.Fatalf("a call of the code under test never returned (family %s): run stopped after reporting it", label)
+			finish(f, res)
+		}
 		res.Sample(6, map[string]any{"kind": label, "ops": lines(ops[:min(len(ops), 14)]), "memory": sr.Outs["memory"][:min(len(ops), 14)]})
 	}
 
